@@ -150,15 +150,15 @@ type PatEl struct {
 }
 
 type Upd struct {
-	Op    string   `json:"op"` // setprop setprops delprop delprops addkind addkinds delkind delkinds delete create
-	R     string   `json:"r,omitempty"`
-	P     []string `json:"p,omitempty"`
-	K     []string `json:"k,omitempty"`
-	V     *V       `json:"v,omitempty"`
-	Vars  []string `json:"vars,omitempty"`
-	Pat   []PatEl  `json:"pat,omitempty"`
-	Bulk  bool     `json:"bulk,omitempty"` // handed over inside query.Update(...) instead of on its own
-	Viaf  bool     `json:"viaf,omitempty"` // handed over through query.Updatef
+	Op   string   `json:"op"` // setprop setprops delprop delprops addkind addkinds delkind delkinds delete create
+	R    string   `json:"r,omitempty"`
+	P    []string `json:"p,omitempty"`
+	K    []string `json:"k,omitempty"`
+	V    *V       `json:"v,omitempty"`
+	Vars []string `json:"vars,omitempty"`
+	Pat  []PatEl  `json:"pat,omitempty"`
+	Bulk bool     `json:"bulk,omitempty"` // handed over inside query.Update(...) instead of on its own
+	Viaf bool     `json:"viaf,omitempty"` // handed over through query.Updatef
 }
 
 type Ent struct {
